@@ -68,7 +68,7 @@ def run(tier, seed, argv):
     jobs = jobs_for(tier)
     # seeded sample of the option product (graft x nesterov x bias correction x decoupled x layout x schedule x dtype pair x ignored dims x presence)
     jobs += [dict(id=f"r{i}", module="checks.c03", factory="make", cfg=c)
-             for i, c in enumerate(c01.random_cfgs(seed, 8 if tier == "quick" else 60, precond=("soap_eigh", "soap_qr"), tier=tier))]
+             for i, c in enumerate(c01.random_cfgs(seed, 8 if tier == "quick" else 300, precond=("soap_eigh", "soap_qr"), tier=tier))]
     if argv:
         jobs = [j for j in jobs if j["id"] in argv]
     rep.bounds = dict(configs=len(jobs), methods=["eigh", "QR"], steps="T<=4 re-based", shapes="<=8 elements, order 1..3 blocks", dtype_pairs="float32/float32, bfloat16/float32, float32/float64, float64/float64")
